@@ -186,6 +186,15 @@ def observe(pid, allc):
     recs = []
     for r in results:
         c = byid[r["id"]]
+        if c["kind"] in ("hp", "hs"):
+            rec = {"id": r["id"], "kind": c["kind"], "ed": c["ed"], "p1": r["p1"], "p2": r["p2"], "after1": r["after1"],
+                   "edit": r["edit"], "esc": r["esc"]}
+            if c["kind"] == "hp":
+                rec.update(t=c["t"], t2=c["t2"], rt2=r["rt2"], alias=r["alias"])
+            else:
+                rec["v"] = c["v"]
+            recs.append(rec)
+            continue
         rec = {"id": r["id"], "kind": c["kind"], "out": r["out"], "rt": r["rt"]}
         if c["kind"] == "parse":
             rec["t"] = c["t"]
@@ -261,7 +270,7 @@ def run(rep):
     rep.add_tlc("C19.Enum+Laws", res)
     allc, fam, nextra, nrand = prepare(res.records, rep.tier, rep.seed)
     for need, least in (("tokc", 1000), ("tokf", 400), ("mut", 3000), ("val", 3000), ("sv", 800), ("st", 1000),
-                        ("nt", 2000), ("nv", 500)):
+                        ("nt", 2000), ("nv", 500), ("hp", 800), ("hs", 400)):
         if fam.get(need, 0) < least and not only:
             raise Machinery("enumeration produced only %d cases of family %s" % (fam.get(need, 0), need))
     names = {"tokc": "token-class sequences (all short ones, then every one-token extension of a viable prefix)",
@@ -271,6 +280,9 @@ def run(rep):
              "st": "strings by shape as string tokens (unit-class sequences x raw / \\u / \\U / short-escape spellings; root, key and value)",
              "nt": "number tokens by shape (digit runs by length x pattern and around 2^k, x token forms incl. near misses; "
                    "mantissa x exponent-spelling grid; signs; root / array / property / white space)",
+             "hp": "histories: parse(t1), the script edits the result (append / overwrite / truncate / new key / delete, root and nested), "
+                   "parse(t2) with t2 equal / another spelling / containing t1; scalars and rejected texts as t1",
+             "hs": "histories: stringify(v), the script edits v (same edits), stringify(v) again",
              "nv": "the numbers denoted by the number tokens as stringify operands (root, array element, property value)"}
     for f, n in sorted(fam.items()):
         rep.spaces.append({"space": names.get(f, f) + " (TLC-enumerated)", "cases": n, "complete": True})
@@ -288,6 +300,8 @@ def run(rep):
     for i, v in sorted(got.items()):
         r, c = rmap[i], byid[i]
         if v["v"] == "pass":
+            if c["kind"] in ("hp", "hs"):
+                continue
             if len(rep.samples) < 6 and i % 2221 == 0:
                 rep.sample({"case": show_case(c), "engine": show_out(r["out"]), "round_trip": show_out(r["rt"]), "verdict": "pass"})
             continue
@@ -296,7 +310,11 @@ def run(rep):
                 raise Machinery("judge called an enumerated case unsupported: %r" % c)
             unsupported += 1
             continue
-        detail = {"expected": v["exp"], "actual": {"out": r["out"], "rt": r["rt"], "protos": r.get("protos")}, "case": c}
+        if c["kind"] in ("hp", "hs"):
+            actual = {f: r.get(f) for f in ("p1", "p2", "rt2", "after1", "alias", "edit", "esc") if f in r}
+        else:
+            actual = {"out": r["out"], "rt": r["rt"], "protos": r.get("protos")}
+        detail = {"expected": v["exp"], "actual": actual, "case": c}
         for d in choose_alt(v.get("alts") or [], rep.findings):
             rep.mismatch(show_case(c), detail, dev=d)
     rep.exhaustive = True
@@ -336,7 +354,22 @@ def show_val(v):
     return wire.show(v)
 
 
+def show_edit(ed):
+    if ed["op"] == "none":
+        return "no edit"
+    path = "".join("[%s]" % (st["i"] if st["a"] == "i" else ascii(wire.from_units(st["n"]))) for st in ed["path"])
+    x = show_val(ed["x"])
+    return {"push": "r%s.push(%s)" % (path, x), "seti": "r%s[%s] = %s" % (path, ed["i"], x), "trunc": "r%s.length = 0" % path,
+            "put": "r%s[%s] = %s" % (path, ascii(wire.from_units(ed["n"])), x),
+            "del": "delete r%s[%s]" % (path, ascii(wire.from_units(ed["n"])))}[ed["op"]]
+
+
 def show_case(c):
+    if c["kind"] == "hp":
+        return "r = JSON.parse(%s); %s; JSON.parse(%s)" % (ascii(wire.from_units(c["t"])), show_edit(c["ed"]),
+                                                           ascii(wire.from_units(c["t2"])))
+    if c["kind"] == "hs":
+        return "r = %s; JSON.stringify(r); %s; JSON.stringify(r)" % (show_val(c["v"]), show_edit(c["ed"]))
     if c["kind"] == "parse":
         return "JSON.parse(%s)" % ascii(wire.from_units(c["t"]))
     return "JSON.stringify(%s)%s" % (show_val(c["v"]), " [int repr]" if c.get("ir") else "")
